@@ -116,3 +116,70 @@ def manager_reachable(run):
     if not hasattr(run, "_mgr_reach"):
         run._mgr_reach = run.A.reachable_functions(manager_roots(run))
     return run._mgr_reach
+
+
+def device_touching(run):
+    """Qualnames of functions from which a transport exchange
+    (`<x>.dongle.exchange(...)`) is reachable through the resolved call graph."""
+    if hasattr(run, "_dev_touch"):
+        return run._dev_touch
+    A, P = run.A, run.P
+    direct = set()
+    for fn in P.all_functions:
+        for n in A.own_nodes(fn):
+            if isinstance(n, ast.Call) and call_name(n) == "exchange" \
+                    and isinstance(n.func, ast.Attribute) and norm(n.func.value).endswith("dongle"):
+                direct.add(fn.qualname)
+    if len(direct) < 1:
+        raise AnalysisError("no dongle.exchange() call found: transport anchor vanished")
+    edges = {}
+    allf = list(P.all_functions) + list(A.module_level.values())
+    for fn in allf:
+        tg = set()
+        for call, cs in A.callees(fn, None):
+            for c in cs:
+                if c.fn is not None:
+                    tg.add(c.fn.qualname)
+        edges[fn.qualname] = tg
+    dev = set(direct)
+    changed = True
+    while changed:
+        changed = False
+        for q, tg in edges.items():
+            if q not in dev and tg & dev:
+                dev.add(q)
+                changed = True
+    run._dev_touch = dev
+    run._dev_direct = direct
+    return dev
+
+
+def command_methods(run, pc):
+    """{command string: FunctionInfo} from the `_mappings` dict of protocol
+    class pc (resolved through its MRO), plus validators."""
+    P, A = run.P, run.A
+    im = P.method(pc, "_init_mappings")
+    maps = {}
+    for n in A.own_nodes(im):
+        if isinstance(n, ast.Assign) and len(n.targets) == 1 and isinstance(n.targets[0], ast.Attribute) \
+                and n.targets[0].attr in ("_mappings", "_validation_mappings") and isinstance(n.value, ast.Dict):
+            d = {}
+            for k, v in zip(n.value.keys, n.value.values):
+                try:
+                    key = unwrap(P.const_eval(k, im.module, cls=pc))
+                except (Unknown, AnalysisError):
+                    raise AnalysisError(f"{im.qualname}: mapping key `{norm(k)}` not a constant")
+                if isinstance(v, ast.Attribute) and isinstance(v.value, ast.Name) and v.value.id == "self":
+                    r = pc.lookup(v.attr)
+                    if r is None or r[1] != "method":
+                        raise AnalysisError(f"mapping entry {norm(v)} does not resolve in {pc.name}")
+                    d[key] = r[2]
+                elif isinstance(v, ast.Lambda):
+                    lam = [l for l in im.lambdas if l.node is v]
+                    d[key] = lam[0] if lam else None
+                else:
+                    raise AnalysisError(f"{im.qualname}: mapping value `{norm(v)}` not understood")
+            maps[n.targets[0].attr] = d
+    if set(maps) != {"_mappings", "_validation_mappings"}:
+        raise AnalysisError(f"{im.qualname}: _mappings/_validation_mappings dict literals not found")
+    return maps
